@@ -111,6 +111,27 @@ class TLCResult:
         self.trace = []         # counter-example text lines
 
 
+def run_apalache(module, cinit, init, inv, length, timeout=600):
+    """apalache-mc check on spec/<module>.tla in a scratch directory. Returns "ok" or "violated";
+    anything else (type error, time-out, crash) raises ToolFailure."""
+    work = mkscratch("apalache")
+    try:
+        shutil.copy(os.path.join(SPEC, module + ".tla"), work)
+        cmd = ["timeout", str(timeout), "apalache-mc", "check", "--cinit=" + cinit, "--init=" + init, "--inv=" + inv,
+               "--length=%d" % length, "--out-dir=" + os.path.join(work, "out"), module + ".tla"]
+        env = dict(os.environ)
+        env.pop("JAVA_TOOL_OPTIONS", None)
+        p = subprocess.run(cmd, cwd=work, env=env, stdout=subprocess.PIPE, stderr=subprocess.STDOUT, text=True)
+        out = p.stdout or ""
+        if "The outcome is: NoError" in out and p.returncode == 0:
+            return "ok"
+        if "The outcome is: Error" in out and "invariant" in out and p.returncode == 12:
+            return "violated"
+        raise ToolFailure("apalache-mc failed rc=%d on %s (%s/%s/%s)\n%s" % (p.returncode, module, cinit, init, inv, out[-2500:]))
+    finally:
+        shutil.rmtree(work, ignore_errors=True)
+
+
 def run_tlc(module, cfg, env_extra=None, workers=None, timeout=600, simulate=None, depth=None,
             seed=None, row_prefix="ROW", deadlock=False, extra_args=None, heap=None, keep=None):
     """Run TLC on spec/<module>.tla with spec/<cfg> in a scratch copy of spec/.
